@@ -82,3 +82,28 @@ Print Assumptions no_exception_is_basic_machine.
 Example c35_exception_nonvacuous :
   servicex [(1,10); (2,20); (3,10); (4,30)] [OTrans; OFatal] = ([(1,10); (3,10); (4,30)], [], Some (2,20)).
 Proof. vm_compute. reflexivity. Qed.
+
+(* ---- histories with exceptions: per-destination FIFO departure ---- *)
+Require Import V.C35.FatalOrder.
+
+(* Over EVERY history of enqueues, full passes and single-shot calls with sent / transient / non-transient outcomes:
+   for each destination d, the packets to d that have LEFT the queue so far (sent, or lost with the exception their
+   own send raised), in the order they left, followed by the packets to d still queued, are exactly the packets
+   ever queued for d in queue order.  So also with exceptions no packet to d is sent twice, overtaken, or silently
+   skipped: the only packets never sent are those whose own send raised. *)
+Theorem departures_in_queue_order : forall ops d,
+  to d (leftsx ops initx) ++ to d (xq (runx ops)) = to d (xqueued (runx ops)).
+Proof. exact runx_fifo. Qed.
+Print Assumptions departures_in_queue_order.
+
+(* and what left the queue is exactly what was sent plus what was lost with its own exception *)
+Theorem departures_are_sent_or_raised : forall ops,
+  Permutation (xlog (runx ops) ++ xdropped (runx ops)) (leftsx ops initx).
+Proof. exact runx_left_perm. Qed.
+Print Assumptions departures_are_sent_or_raised.
+
+Example c35_departures_nonvacuous :
+  let ops := [XEnq (1,10); XEnq (2,20); XEnq (3,10); XEnq (4,30); XService [OTrans; OFatal]; XService []] in
+  leftsx ops initx = [(2,20); (1,10); (3,10); (4,30)] /\ xlog (runx ops) = [(1,10); (3,10); (4,30)] /\
+  xdropped (runx ops) = [(2,20)] /\ xq (runx ops) = [].
+Proof. vm_compute. repeat split; reflexivity. Qed.
